@@ -85,3 +85,32 @@ def lexer_cases(obs, seed, variants=1):
             cid += 1
             cases.append({"id": cid, "src": src, "classes": "".join(o["inp"]), "toks": toks, "err": o["err"], "at": [off[o["at"][0]], off[o["at"][1]]]})
     return cases
+
+
+def long_programs(seed, n_sessions=6):
+    """program texts of 70 to 1500 tokens in one parse: whole random sessions as one text, and top-level statements whose one-line or
+    braced body is long (a call with many arguments, an array literal with many elements, a long operator chain, many statements),
+    each also with a mismatching loop header or a missing closer so that the parser fails late"""
+    import gens
+    from astlib import ps
+    out = []
+    for s in gens.random_sessions(n_sessions, seed, "long"):
+        out.append("\n".join(ps(it) for it in s["items"]))
+    for k in (40, 130, 300):
+        elems = ", ".join(str(i) for i in range(k))
+        chain = " + ".join(str(i % 7) for i in range(k))
+        stmts = "\n".join("t = t + %d" % i for i in range(k))
+        out += ["t = 0\nfor i <- fromto(0, 3) t = t + #[%s]\nt" % elems,
+                "t = 0\nfor i, j <- fromto(0, 3) t = t + #[%s]\nt" % elems,              # one variable short: an error reported after the long body
+                "t = 0\nfor i <- fromto(0, 2) t = t + (%s)\nt" % chain,
+                "t = 0\nw = true\nwhile w {\n%s\nw = false\n}\nt" % stmts,
+                "t = 0\nif t == 0 {\n%s\n} else {\n%s\n}\nt" % (stmts, stmts),
+                "t = 0\nif t == 0 {\n%s\n" % stmts,                                      # never closed
+                "id = (v) -> v\nid(#[%s])\nid(%s)" % (elems, chain),
+                "\n".join(str(i) for i in range(k)),
+                "f = () -> {\n%s\nt\n}\nt = 0\nf()" % stmts,
+                # the same statements on their own, as the read-eval loop hands them to the parser
+                "for i <- fromto(0, 3) t = t + #[%s]" % elems, "for i, j <- fromto(0, 3) t = t + #[%s]" % elems, "for i <- fromto(0, 2) id(%s)" % chain,
+                "while w {\n%s\nw = false\n}" % stmts, "if t == 0 {\n%s\n} else {\n%s\n}" % (stmts, stmts), "if t == 0 t = [%s] else t = [%s]" % (elems, elems),
+                "while false t = #[%s]" % elems, "id(#[%s])" % elems, "[%s][%d : %d]" % (elems, 1, 2), "f = () -> {\n%s\nt\n}" % stmts]
+    return out
